@@ -184,21 +184,24 @@ def argmaxGo : List α → Nat → Nat × α → Nat × α
   | [], _, best => best
   | x :: rest, idx, best => argmaxGo rest (idx + 1) (if best.2 < x then (idx, x) else best)
 
-/-- first index of the maximum; `none` on an empty list (`argmax().unwrap()` panics) -/
-def argmaxFirst : List α → Option Nat
-  | [] => none
-  | x :: rest => some (argmaxGo rest 1 (0, x)).1
+/-- first index of the maximum (`argmax().unwrap()`; the empty case is excluded by the guard of
+`tableBatch`, where the Rust code panics) -/
+def argmaxIdx : List α → Nat
+  | [] => 0
+  | x :: rest => (argmaxGo rest 1 (0, x)).1
 
 /-- column `i` of a class-major table -/
 def column (table : List (List α)) (i : Nat) : List α := table.filterMap fun row => row[i]?
 
-/-- `scores c rows` = the score vector of class `c` over the whole batch (one table row) -/
+/-- `scores c rows` = the score vector of class `c` over the whole batch (one table row);
+`none` = `argmax` of an empty column panics (no classes, at least one row) -/
 def tableBatch {R : Type} (scores : List (List R → List α)) (rows : List R) : Option (List Nat) :=
   let table := scores.map fun s => s rows
-  (List.range rows.length).mapM fun i => argmaxFirst (column table i)
+  if scores.isEmpty && !rows.isEmpty then none
+  else some ((List.range rows.length).map fun i => argmaxIdx (column table i))
 
-def tableRow {R : Type} (scores : List (R → α)) (r : R) : Option Nat :=
-  argmaxFirst (scores.map fun s => s r)
+def tableRow {R : Type} (scores : List (R → α)) (r : R) : Nat :=
+  argmaxIdx (scores.map fun s => s r)
 
 /-! ## threshold family: binary logistic (`prob >= threshold`), SVM (`val >= 0`) -/
 
